@@ -182,7 +182,11 @@ def ident(v):
 # outputs to round-trip
 # ---------------------------------------------------------------------------------------------
 
-ORDER_KEYS = [(0, 0, 0, 0), (1, 0, 0, 0), (1, 0, 1, 0)]
+# deliberately NOT in sorted order (as scale_variations.build_orders emits them from NNLO on)
+ORDER_KEYS = [(0, 0, 0, 0), (2, 0, 1, 0), (2, 0, 0, 1), (1, 0, 0, 0)]
+
+
+XS_KINDS = ["XSHERANC", "XSHERANCAVG", "XSHERACC", "XSCHORUSCC", "XSNUTEVCC", "XSNUTEVNU", "FW", "F1", "g5", "XSFPFCC"]
 
 
 def make_output(mk, shape):
@@ -204,7 +208,7 @@ def make_output(mk, shape):
             continue
         pts = []
         for i in range(npts):
-            xs = name.startswith("XS")
+            xs = name.split("_")[0] in XS_KINDS
             r = EXSResult(mk(f"{name}[{i}].x"), mk(f"{name}[{i}].Q2"), mk(f"{name}[{i}].y"), nf) if xs else ESFResult(
                 mk(f"{name}[{i}].x"), mk(f"{name}[{i}].Q2"), nf)
             for o in ORDER_KEYS[:nord]:
@@ -358,12 +362,16 @@ def shapes(tier):
     pts = [None, 0, 1, 2]
     out = []
     for p1, p2 in itertools.product(pts, pts):
-        for nord, nf in itertools.product([1, 2, 3], [None, 4]):
+        for nord, nf in itertools.product([1, 2, 3, 4], [None, 4]):
             if tier == "quick" and (str(p1) + str(p2) + str(nord) + str(nf)).__hash__() % 3 and not (p1 == 0 or p2 == 0 or p1 is None):
                 continue
             out.append([("F2_total", p1, nord, nf), ("XSHERANC_total", p2, max(1, nord - 1), nf)])
     out.append([("F2_total", 2, 2, 4)])
     out.append([("XSCHORUSCC_charm", 1, 1, None)])
+    # cross-section kinds whose name does not start with XS, next to structure functions
+    for k in ("FW_total", "F1_total", "g5_light"):
+        out.append([(k, 2, 3, 4), ("g1_total", 1, 4, None)])
+        out.append([(k, 1, 4, None)])
     out.append([])
     return out
 
